@@ -92,9 +92,14 @@ Definition clears_its_table (f : fn_def) : bool :=
   | [ESemi (EMethod (EMethod (EField (EPath ["self"]) "map") "get_mut" []) "clear" [])] => true
   | _ => false
   end.
+(* the whole body: clear the map, then tell the reloader IF there is one -- clear neither creates a
+   reloader nor touches anything else *)
 Definition cache_clear_wf (f : fn_def) : bool :=
   match fn_body f with
-  | ESemi (EMethod (EField (EPath ["self"]) "assets") "clear" []) :: _ => true
+  | [ESemi (EMethod (EField (EPath ["self"]) "assets") "clear" [])] => true
+  | [ESemi (EMethod (EField (EPath ["self"]) "assets") "clear" []);
+     EIf (ELet (PTupleStruct ["Some"] [PIdent r None]) (ERef (EField (EPath ["self"]) "reloader")))
+       [ESemi (EMethod (EPath [r']) "clear" [])] None] => String.eqb r r'
   | _ => false
   end.
 Lemma clear_empties_the_whole_map :
